@@ -133,7 +133,7 @@ package jsonapi
 //@ requires schema: schema != nil && allTypesWf(schema) && noIDField(schema) && softSchema(schema)
 //@ modifies new[SoftResource], new[Type], new[map[string]any], new[map[string]Attr], new[map[string]Rel], new[time.Time], new[uint8], new[string], new[resourceSkeleton], new[map[string][]uint8], new[map[string]relationshipSkeleton], new[Identifier], new[[]Identifier], new[any], new[int], new[int8], new[int16], new[int32], new[int64], new[uint], new[uint16], new[uint32], new[uint64], new[bool], new[[]uint8]
 //@ ensures error-xor-result: (result1 != nil) == (result0 == nil)
-//@ ensures soft: result1 == nil ==> dyn(result0) == type[*SoftResource] && asSoft(result0) != nil
+//@ ensures soft: result1 == nil ==> dyn(result0) == type[*SoftResource] && asSoft(result0) != nil && asSoft(result0).Type != nil
 //@ ensures known-type: result1 == nil ==> hasType(schema, asSoft(result0).Type.Name)
 //@ ensures type-name: result1 == nil ==> asSoft(result0).Type.Name == rsk_type(old(text(data)))
 //@ ensures id: result1 == nil ==> asSoft(result0).id == rsk_id(old(text(data)))
@@ -158,3 +158,96 @@ package jsonapi
 //@ use SoftResource.Set: set-id keep-id checked fresh-data fresh-maps new-maps-empty typed-attrs typed-rels only-fields
 //@ use Attr.UnmarshalToType: error-xor-value typed-string typed-int typed-int8 typed-int16 typed-int32 typed-int64 typed-uint typed-uint8 typed-uint16 typed-uint32 typed-uint64 typed-bool typed-time-Time typed-slice-byte
 //@ use Schema.GetType: found missing named first
+
+//@ spec urSoft(r Resource) = dyn(r) == type[*SoftResource] && asSoft(r) != nil && asSoft(r).Type != nil
+//@ spec urOK(r Resource, schema *Schema) = dyn(r) == type[*SoftResource] && asSoft(r) != nil && asSoft(r).Type != nil && hasType(schema, asSoft(r).Type.Name) && srTyped(asSoft(r))
+
+//@ func Resources.Add
+//@ props C05
+//@ requires nonnil: r != nil
+//@ modifies obj[Resources](r), spare[Resource](*r), new[Resource]
+//@ ensures appended: len(*r) == old(len(*r)) + 1 && (*r)[old(len(*r))] == res
+//@ ensures prefix: forall k int :: 0 <= k && k < old(len(*r)) ==> (*r)[k] == old((*r)[k])
+//@ ensures fresh-or-spare: old(len(*r)) < old(cap(*r)) || fresh(*r)
+//@ ensures same-array: old(len(*r)) < old(cap(*r)) ==> ptr(*r) == old(ptr(*r)) && cap(*r) == old(cap(*r))
+
+//@ func UnmarshalCollection
+//@ flag post-per-return
+//@ props C05
+//@ requires schema: schema != nil && allTypesWf(schema) && noIDField(schema) && softSchema(schema)
+//@ modifies new[Resources], new[Resource], new[SoftResource], new[Type], new[map[string]any], new[map[string]Attr], new[map[string]Rel], new[time.Time], new[uint8], new[string], new[resourceSkeleton], new[map[string][]uint8], new[map[string]relationshipSkeleton], new[Identifier], new[[]Identifier], new[any], new[int], new[int8], new[int16], new[int32], new[int64], new[uint], new[uint16], new[uint32], new[uint64], new[bool], new[[]uint8]
+//@ ensures error-xor-result: (result1 != nil) == (result0 == nil)
+//@ ensures resources: result1 == nil ==> dyn(result0) == type[*Resources] && unbox(result0, type[*Resources]) != nil
+//@ ensures elems-ok: result1 == nil ==> (forall k int :: 0 <= k && k < len(*unbox(result0, type[*Resources])) ==> urOK((*unbox(result0, type[*Resources]))[k], schema))
+//@ loop 0 invariant col: col != nil && fresh(col) && cske == pre(cske) && len(*col) == $idx + 1 && (cap(*col) == 0 || fresh(*col))
+//@ loop 0 invariant frame: unchanged(heap[Type]) && unchanged(heap[Schema]) && unchanged(maps[map[string]Attr]) && unchanged(maps[map[string]Rel]) && unchanged(heap[string]) && unchanged(heap[uint8]) && unchanged(heap[SoftResource]) && unchanged(maps[map[string]any]) && unchanged(heap[Resource]) && unchanged(heap[Resources]) && unchanged(heap[[]uint8])
+//@ loop 0 invariant elems-soft: forall k int :: 0 <= k && k < len(*col) ==> urSoft((*col)[k])
+//@ loop 0 invariant elems-known: forall k int :: 0 <= k && k < len(*col) ==> hasType(schema, asSoft((*col)[k]).Type.Name)
+//@ loop 0 invariant elems-typed-attrs: forall k int, f string :: 0 <= k && k < len(*col) && f in asSoft((*col)[k]).Type.Attrs && f in asSoft((*col)[k]).data ==> valTyped(asSoft((*col)[k]).data[f], asSoft((*col)[k]).Type.Attrs[f])
+//@ loop 0 invariant elems-typed-rels: forall k int, f string :: 0 <= k && k < len(*col) && f in asSoft((*col)[k]).Type.Rels && f in asSoft((*col)[k]).data ==> relTyped(asSoft((*col)[k]).data[f], asSoft((*col)[k]).Type.Rels[f])
+//@ assert after UnmarshalResource#0 prev-soft: forall k int :: 0 <= k && k < len(*col) ==> urSoft((*col)[k])
+//@ assert after UnmarshalResource#0 prev-known: forall k int :: 0 <= k && k < len(*col) ==> hasType(schema, asSoft((*col)[k]).Type.Name)
+//@ assert after UnmarshalResource#0 prev-typed-attrs: forall k int, f string :: 0 <= k && k < len(*col) && f in asSoft((*col)[k]).Type.Attrs && f in asSoft((*col)[k]).data ==> valTyped(asSoft((*col)[k]).data[f], asSoft((*col)[k]).Type.Attrs[f])
+//@ assert after UnmarshalResource#0 prev-typed-rels: forall k int, f string :: 0 <= k && k < len(*col) && f in asSoft((*col)[k]).Type.Rels && f in asSoft((*col)[k]).data ==> relTyped(asSoft((*col)[k]).data[f], asSoft((*col)[k]).Type.Rels[f])
+
+//@ spec colOK(c any, schema *Schema) = dyn(c) == type[*Resources] && unbox(c, type[*Resources]) != nil && (forall k int :: 0 <= k && k < len(*unbox(c, type[*Resources])) ==> urOK((*unbox(c, type[*Resources]))[k], schema))
+
+//@ func UnmarshalDocument
+//@ flag post-per-return
+//@ props C05
+//@ requires schema: schema != nil && allTypesWf(schema) && noIDField(schema) && softSchema(schema)
+//@ modifies new[Document], new[payloadSkeleton], new[Error], new[Link], new[map[string]Link], new[map[string]map[string]struct{}], new[map[string]struct{}], new[map[string][]string], new[[]string], new[Resources], new[Resource], new[SoftResource], new[Type], new[map[string]any], new[map[string]Attr], new[map[string]Rel], new[time.Time], new[uint8], new[string], new[resourceSkeleton], new[map[string][]uint8], new[map[string]relationshipSkeleton], new[Identifier], new[[]Identifier], new[any], new[int], new[int8], new[int16], new[int32], new[int64], new[uint], new[uint16], new[uint32], new[uint64], new[bool], new[[]uint8]
+//@ ensures error-xor-result: (result1 != nil) == (result0 == nil)
+//@ ensures data: result1 == nil ==> result0.Data == nil || urOK(result0.Data, schema) || colOK(result0.Data, schema)
+//@ ensures included: result1 == nil ==> (forall k int :: 0 <= k && k < len(result0.Included) ==> urOK(result0.Included[k], schema))
+//@ loop 0 invariant incs: fresh(incs) && len(incs) == len(ske.Included) && doc == pre(doc) && ske == pre(ske) && *ske == pre(*ske) && *doc == pre(*doc)
+//@ loop 0 invariant frame: unchanged(heap[Type]) && unchanged(heap[Schema]) && unchanged(maps[map[string]Attr]) && unchanged(maps[map[string]Rel]) && unchanged(heap[string]) && unchanged(heap[uint8]) && unchanged(heap[SoftResource]) && unchanged(maps[map[string]any]) && unchanged(heap[Resource]) && unchanged(heap[Resources]) && unchanged(heap[[]uint8]) && unchanged(heap[Identifier])
+//@ loop 1 invariant doc: doc != nil && fresh(doc) && ske != nil && ske == pre(ske) && *ske == pre(*ske) && len(incs) == len(ske.Included) && incs == pre(incs) && doc.Data == pre(doc.Data) && (cap(doc.Included) == 0 || loopfresh(doc.Included))
+//@ loop 1 invariant loopframe: loopkept(heap[Resource]) && loopkept(heap[Resources]) && loopkept(heap[SoftResource]) && loopkept(heap[Type]) && loopkept(maps[map[string]Attr]) && loopkept(maps[map[string]Rel]) && loopkept(maps[map[string]any])
+//@ loop 1 invariant frame: unchanged(heap[Type]) && unchanged(heap[Schema]) && unchanged(maps[map[string]Attr]) && unchanged(maps[map[string]Rel]) && unchanged(heap[string]) && unchanged(heap[uint8]) && unchanged(heap[SoftResource]) && unchanged(maps[map[string]any]) && unchanged(heap[Resource]) && unchanged(heap[Resources]) && unchanged(heap[[]uint8]) && unchanged(heap[Identifier]) && unchanged(heap[Document])
+//@ loop 1 invariant data-old: dyn(doc.Data) == type[*Resources] ==> loopold(unbox(doc.Data, type[*Resources])) && loopold(*unbox(doc.Data, type[*Resources]))
+//@ loop 1 invariant data-kind: doc.Data == nil || urSoft(doc.Data) || (dyn(doc.Data) == type[*Resources] && unbox(doc.Data, type[*Resources]) != nil)
+//@ loop 1 invariant data-res-known: dyn(doc.Data) == type[*SoftResource] ==> hasType(schema, asSoft(doc.Data).Type.Name)
+//@ loop 1 invariant data-res-typed-attrs: forall f string :: dyn(doc.Data) == type[*SoftResource] && f in asSoft(doc.Data).Type.Attrs && f in asSoft(doc.Data).data ==> valTyped(asSoft(doc.Data).data[f], asSoft(doc.Data).Type.Attrs[f])
+//@ loop 1 invariant data-res-typed-rels: forall f string :: dyn(doc.Data) == type[*SoftResource] && f in asSoft(doc.Data).Type.Rels && f in asSoft(doc.Data).data ==> relTyped(asSoft(doc.Data).data[f], asSoft(doc.Data).Type.Rels[f])
+//@ loop 1 invariant data-col-soft: forall k int :: dyn(doc.Data) == type[*Resources] && 0 <= k && k < len((*unbox(doc.Data, type[*Resources]))) ==> urSoft((*unbox(doc.Data, type[*Resources]))[k])
+//@ loop 1 invariant data-col-known: forall k int :: dyn(doc.Data) == type[*Resources] && 0 <= k && k < len((*unbox(doc.Data, type[*Resources]))) ==> hasType(schema, asSoft((*unbox(doc.Data, type[*Resources]))[k]).Type.Name)
+//@ loop 1 invariant data-col-typed-attrs: forall k int, f string :: dyn(doc.Data) == type[*Resources] && 0 <= k && k < len((*unbox(doc.Data, type[*Resources]))) && f in asSoft((*unbox(doc.Data, type[*Resources]))[k]).Type.Attrs && f in asSoft((*unbox(doc.Data, type[*Resources]))[k]).data ==> valTyped(asSoft((*unbox(doc.Data, type[*Resources]))[k]).data[f], asSoft((*unbox(doc.Data, type[*Resources]))[k]).Type.Attrs[f])
+//@ loop 1 invariant data-col-typed-rels: forall k int, f string :: dyn(doc.Data) == type[*Resources] && 0 <= k && k < len((*unbox(doc.Data, type[*Resources]))) && f in asSoft((*unbox(doc.Data, type[*Resources]))[k]).Type.Rels && f in asSoft((*unbox(doc.Data, type[*Resources]))[k]).data ==> relTyped(asSoft((*unbox(doc.Data, type[*Resources]))[k]).data[f], asSoft((*unbox(doc.Data, type[*Resources]))[k]).Type.Rels[f])
+//@ loop 1 invariant inc-soft: forall k int :: 0 <= k && k < len(doc.Included) ==> urSoft(doc.Included[k])
+//@ loop 1 invariant inc-known: forall k int :: 0 <= k && k < len(doc.Included) ==> hasType(schema, asSoft(doc.Included[k]).Type.Name)
+//@ loop 1 invariant inc-typed-attrs: forall k int, f string :: 0 <= k && k < len(doc.Included) && f in asSoft(doc.Included[k]).Type.Attrs && f in asSoft(doc.Included[k]).data ==> valTyped(asSoft(doc.Included[k]).data[f], asSoft(doc.Included[k]).Type.Attrs[f])
+//@ loop 1 invariant inc-typed-rels: forall k int, f string :: 0 <= k && k < len(doc.Included) && f in asSoft(doc.Included[k]).Type.Rels && f in asSoft(doc.Included[k]).data ==> relTyped(asSoft(doc.Included[k]).data[f], asSoft(doc.Included[k]).Type.Rels[f])
+//@ assert after UnmarshalResource#1 lk1: loopkept(heap[Resource]) && loopkept(heap[Resources]) && loopkept(heap[SoftResource]) && loopkept(heap[Type]) && loopkept(maps[map[string]Attr]) && loopkept(maps[map[string]Rel]) && loopkept(maps[map[string]any])
+//@ assert after UnmarshalResource#1 data-old1: dyn(doc.Data) == type[*Resources] ==> loopold(unbox(doc.Data, type[*Resources])) && loopold(*unbox(doc.Data, type[*Resources]))
+//@ assert after UnmarshalResource#1 inc-array1: cap(doc.Included) == 0 || loopfresh(doc.Included)
+//@ assert after append#0 lk2: loopkept(heap[Resource])
+//@ assert after UnmarshalResource#1 prev-soft: forall k int :: 0 <= k && k < len(doc.Included) ==> urSoft(doc.Included[k])
+//@ assert after UnmarshalResource#1 prev-known: forall k int :: 0 <= k && k < len(doc.Included) ==> hasType(schema, asSoft(doc.Included[k]).Type.Name)
+//@ assert after UnmarshalResource#1 prev-typed-attrs: forall k int, f string :: 0 <= k && k < len(doc.Included) && f in asSoft(doc.Included[k]).Type.Attrs && f in asSoft(doc.Included[k]).data ==> valTyped(asSoft(doc.Included[k]).data[f], asSoft(doc.Included[k]).Type.Attrs[f])
+//@ assert after UnmarshalResource#1 prev-typed-rels: forall k int, f string :: 0 <= k && k < len(doc.Included) && f in asSoft(doc.Included[k]).Type.Rels && f in asSoft(doc.Included[k]).data ==> relTyped(asSoft(doc.Included[k]).data[f], asSoft(doc.Included[k]).Type.Rels[f])
+//@ assert after UnmarshalResource#1 k1-data-kind: doc.Data == nil || urSoft(doc.Data) || (dyn(doc.Data) == type[*Resources] && unbox(doc.Data, type[*Resources]) != nil)
+//@ assert after UnmarshalResource#1 k1-data-res-known: dyn(doc.Data) == type[*SoftResource] ==> hasType(schema, asSoft(doc.Data).Type.Name)
+//@ assert after UnmarshalResource#1 k1-data-res-typed-attrs: forall f string :: dyn(doc.Data) == type[*SoftResource] && f in asSoft(doc.Data).Type.Attrs && f in asSoft(doc.Data).data ==> valTyped(asSoft(doc.Data).data[f], asSoft(doc.Data).Type.Attrs[f])
+//@ assert after UnmarshalResource#1 k1-data-res-typed-rels: forall f string :: dyn(doc.Data) == type[*SoftResource] && f in asSoft(doc.Data).Type.Rels && f in asSoft(doc.Data).data ==> relTyped(asSoft(doc.Data).data[f], asSoft(doc.Data).Type.Rels[f])
+//@ assert after UnmarshalResource#1 k1-data-col-soft: forall k int :: dyn(doc.Data) == type[*Resources] && 0 <= k && k < len((*unbox(doc.Data, type[*Resources]))) ==> urSoft((*unbox(doc.Data, type[*Resources]))[k])
+//@ assert after UnmarshalResource#1 k1-data-col-known: forall k int :: dyn(doc.Data) == type[*Resources] && 0 <= k && k < len((*unbox(doc.Data, type[*Resources]))) ==> hasType(schema, asSoft((*unbox(doc.Data, type[*Resources]))[k]).Type.Name)
+//@ assert after UnmarshalResource#1 k1-data-col-typed-attrs: forall k int, f string :: dyn(doc.Data) == type[*Resources] && 0 <= k && k < len((*unbox(doc.Data, type[*Resources]))) && f in asSoft((*unbox(doc.Data, type[*Resources]))[k]).Type.Attrs && f in asSoft((*unbox(doc.Data, type[*Resources]))[k]).data ==> valTyped(asSoft((*unbox(doc.Data, type[*Resources]))[k]).data[f], asSoft((*unbox(doc.Data, type[*Resources]))[k]).Type.Attrs[f])
+//@ assert after UnmarshalResource#1 k1-data-col-typed-rels: forall k int, f string :: dyn(doc.Data) == type[*Resources] && 0 <= k && k < len((*unbox(doc.Data, type[*Resources]))) && f in asSoft((*unbox(doc.Data, type[*Resources]))[k]).Type.Rels && f in asSoft((*unbox(doc.Data, type[*Resources]))[k]).data ==> relTyped(asSoft((*unbox(doc.Data, type[*Resources]))[k]).data[f], asSoft((*unbox(doc.Data, type[*Resources]))[k]).Type.Rels[f])
+//@ assert after append#0 kept-soft: forall k int :: 0 <= k && k < len(doc.Included) ==> urSoft(doc.Included[k])
+//@ assert after append#0 kept-known: forall k int :: 0 <= k && k < len(doc.Included) ==> hasType(schema, asSoft(doc.Included[k]).Type.Name)
+//@ assert after append#0 kept-typed-attrs: forall k int, f string :: 0 <= k && k < len(doc.Included) && f in asSoft(doc.Included[k]).Type.Attrs && f in asSoft(doc.Included[k]).data ==> valTyped(asSoft(doc.Included[k]).data[f], asSoft(doc.Included[k]).Type.Attrs[f])
+//@ assert after append#0 kept-typed-rels: forall k int, f string :: 0 <= k && k < len(doc.Included) && f in asSoft(doc.Included[k]).Type.Rels && f in asSoft(doc.Included[k]).data ==> relTyped(asSoft(doc.Included[k]).data[f], asSoft(doc.Included[k]).Type.Rels[f])
+//@ assert after append#0 k2-data-kind: doc.Data == nil || urSoft(doc.Data) || (dyn(doc.Data) == type[*Resources] && unbox(doc.Data, type[*Resources]) != nil)
+//@ assert after append#0 k2-data-res-known: dyn(doc.Data) == type[*SoftResource] ==> hasType(schema, asSoft(doc.Data).Type.Name)
+//@ assert after append#0 k2-data-res-typed-attrs: forall f string :: dyn(doc.Data) == type[*SoftResource] && f in asSoft(doc.Data).Type.Attrs && f in asSoft(doc.Data).data ==> valTyped(asSoft(doc.Data).data[f], asSoft(doc.Data).Type.Attrs[f])
+//@ assert after append#0 k2-data-res-typed-rels: forall f string :: dyn(doc.Data) == type[*SoftResource] && f in asSoft(doc.Data).Type.Rels && f in asSoft(doc.Data).data ==> relTyped(asSoft(doc.Data).data[f], asSoft(doc.Data).Type.Rels[f])
+//@ assert after append#0 k2-data-col-soft: forall k int :: dyn(doc.Data) == type[*Resources] && 0 <= k && k < len((*unbox(doc.Data, type[*Resources]))) ==> urSoft((*unbox(doc.Data, type[*Resources]))[k])
+//@ assert after append#0 k2-data-col-known: forall k int :: dyn(doc.Data) == type[*Resources] && 0 <= k && k < len((*unbox(doc.Data, type[*Resources]))) ==> hasType(schema, asSoft((*unbox(doc.Data, type[*Resources]))[k]).Type.Name)
+//@ assert after append#0 k2-data-col-typed-attrs: forall k int, f string :: dyn(doc.Data) == type[*Resources] && 0 <= k && k < len((*unbox(doc.Data, type[*Resources]))) && f in asSoft((*unbox(doc.Data, type[*Resources]))[k]).Type.Attrs && f in asSoft((*unbox(doc.Data, type[*Resources]))[k]).data ==> valTyped(asSoft((*unbox(doc.Data, type[*Resources]))[k]).data[f], asSoft((*unbox(doc.Data, type[*Resources]))[k]).Type.Attrs[f])
+//@ assert after append#0 k2-data-col-typed-rels: forall k int, f string :: dyn(doc.Data) == type[*Resources] && 0 <= k && k < len((*unbox(doc.Data, type[*Resources]))) && f in asSoft((*unbox(doc.Data, type[*Resources]))[k]).Type.Rels && f in asSoft((*unbox(doc.Data, type[*Resources]))[k]).data ==> relTyped(asSoft((*unbox(doc.Data, type[*Resources]))[k]).data[f], asSoft((*unbox(doc.Data, type[*Resources]))[k]).Type.Rels[f])
+
+//@ func UnmarshalDocument+
+//@ assert after append#0 res-soft: urSoft(res#1) && hasType(schema, asSoft(res#1).Type.Name)
+//@ assert after append#0 res-typed-attrs: forall f string :: f in asSoft(res#1).Type.Attrs && f in asSoft(res#1).data ==> valTyped(asSoft(res#1).data[f], asSoft(res#1).Type.Attrs[f])
+//@ assert after append#0 res-typed-rels: forall f string :: f in asSoft(res#1).Type.Rels && f in asSoft(res#1).data ==> relTyped(asSoft(res#1).data[f], asSoft(res#1).Type.Rels[f])
